@@ -11,6 +11,29 @@ pub struct C03;
 
 const BATCH: u64 = 20;
 
+/// take formatted text and mis-indent one of its multi-line literals (all interior lines and the
+/// closing line get the same extra prefix, so the literal stays conforming)
+fn perturb_one_literal(f1: &str, rng: &mut Rng) -> Option<String> {
+    use crate::refscan::{self, RK};
+    let toks: Vec<_> = refscan::scan(f1).into_iter().filter(|t| t.kind == RK::MlStr).collect();
+    if toks.is_empty() {
+        return None;
+    }
+    let t = toks[rng.below(toks.len())];
+    let lit = t.text(f1);
+    let extra = *rng.pick(&["  ", "    ", "\t", "      "]);
+    let mut new_lit = String::new();
+    let mut first = true;
+    for part in lit.split_inclusive('\n') {
+        if !first {
+            new_lit.push_str(extra);
+        }
+        first = false;
+        new_lit.push_str(part);
+    }
+    Some(format!("{}{}{}", &f1[..t.start], new_lit, &f1[t.end..]))
+}
+
 fn first_diff_line(a: &str, b: &str) -> String {
     let la = oracle::split_breaks(a);
     let lb = oracle::split_breaks(b);
@@ -38,8 +61,12 @@ impl Prop for C03 {
         let mut out = CaseOut::default();
         let mut rng = Rng::derive(ctx.seed, "C03", idx);
         for k in 0..BATCH {
-            let w = common::well_formed(ctx, &mut rng, 30);
+            let mut w = common::well_formed(ctx, &mut rng, 30);
             let mut cfg = Cfg::sample_sane(&mut rng);
+            if rng.chance(1, 8) {
+                w = common::WellFormed { text: common::mls_carrier(&mut rng), name: "mls-carrier".into(), prog: None, layout: None, seed_width: None };
+                // carriers may hold literals that violate the indentation rule; they are still valid programs
+            }
             if let Some(sw) = w.seed_width {
                 if rng.bool() {
                     cfg.wrap_column = sw;
@@ -80,6 +107,8 @@ impl Prop for C03 {
                 if f2 != f1 {
                     let class = if fallback {
                         "wrap-fallback"
+                    } else if (o1.reflowed() || o2.reflowed()) && super::wf::two_mlstr_in_statement(&f1) {
+                        "second-literal-stale-indent"
                     } else if (o1.reflow_cache_hit() || o2.reflow_cache_hit()) && f1.contains("'''") {
                         "reflow-child-cache"
                     } else {
@@ -89,6 +118,28 @@ impl Prop for C03 {
                 } else if let Some((f3, _)) = common::run(&mut out, cfg, &f2) {
                     if f3 != f2 {
                         out.violate("C03", "not-idempotent", format!("{} F^3 != F^2: {}", w.name, first_diff_line(&f2, &f3)), &w.text, Some(cfg));
+                    }
+                }
+                // formatted text in which one literal has been mis-indented again
+                if ci == 0 && cfg.format_multiline_strings && f1.contains("'''") && rng.chance(1, 2) {
+                    if let Some(x2) = perturb_one_literal(&f1, &mut rng) {
+                        out.count("gen.perturbed-literal");
+                        if let Some((g1, p1)) = common::run(&mut out, cfg, &x2) {
+                            if let Some((g2, p2)) = common::run(&mut out, cfg, &g1) {
+                                if g2 != g1 {
+                                    let class = if p1.has_fallback() || p2.has_fallback() {
+                                        "wrap-fallback"
+                                    } else if (p1.reflowed() || p2.reflowed()) && super::wf::two_mlstr_in_statement(&g1) {
+                                        "second-literal-stale-indent"
+                                    } else if p1.reflow_cache_hit() || p2.reflow_cache_hit() {
+                                        "reflow-child-cache"
+                                    } else {
+                                        "not-idempotent"
+                                    };
+                                    out.violate("C03", class, format!("{}+perturbed-literal [{}] {}", w.name, cfg.short(), first_diff_line(&g1, &g2)), &x2, Some(cfg));
+                                }
+                            }
+                        }
                     }
                 }
                 if f1 != w.text && oracle::line_count(&f1) >= 3 {
